@@ -183,4 +183,19 @@ mutual
       | _, _ => none
 end
 
+/-! ### BundleNetAddr -/
+
+/-- the elements a list of sends hands to `send_clumped_bundles` -/
+def clumpedOf : List BSend → List PV
+  | [] => []
+  | .clumped els :: rest => els ++ clumpedOf rest
+  | .sync _ :: rest => clumpedOf rest
+
+/-- the elements collected by `send_msg` / `send_bundle` / `send_clumped_bundles` inside the `with` block -/
+def collected : List BOp → List PV
+  | [] => []
+  | .msg e :: rest => e :: collected rest
+  | .extend es :: rest => es ++ collected rest
+  | .sync _ :: rest => collected rest
+
 end Sc3Verif.C06
